@@ -351,6 +351,13 @@ class CFG:
                     continue
                 if c == n or c not in dom.get(n, ()):
                     continue
+                # in force = every path entry ->* nid takes the edge (c, lab): a branch
+                # that can leave early (assert / raise) makes the code after the join
+                # control dependent on the *other* branch as well, without that
+                # branch's condition holding on all paths
+                if nid != self.entry and self.exists_path_edges(self.entry, nid, forbidden_edges=[(c, lab)]):
+                    seen.add((c, lab))
+                    continue
                 seen.add((c, lab))
                 out.append((c, lab))
                 if transitive and c != n:
